@@ -12,6 +12,7 @@ CONSTANTS
  AllowWith = FALSE
  AllowVars = TRUE
  MaxUses = 2
+ OldWith = FALSE
  RestoreOwn = FALSE
 INVARIANTS FlagAsMeant StackDepth CaptureFree NoCollision PublicUnchanged NoReserved WithOwn WithCross Emit
 CHECK_DEADLOCK FALSE
